@@ -650,13 +650,16 @@ def oracle_split(case, res, info):
                 return ("preferred sizes of the weighted children fit (%d <= %d) but one is below its preferred size: %r" % (rp, avail, r), "preferred-first")
             if avail <= rp and any(s > d[2] for s, d in zip(r, dims)):
                 return ("extra space handed out although the preferred sizes are not all satisfied: %r" % (r,), "preferred-first")
-            if not done and sum(r) != min(avail, smax, rm):
+            loop2_skipped = bool(done) and info["orient"] == 0     # only HSplit looks at app.is_done
+            if not loop2_skipped and sum(r) != min(avail, smax, rm):
                 return ("space not used as far as the weighted children can grow: total %d, available %d, sum of max %d, reachable %d" % (sum(r), avail, smax, rm), "maximal")
+            if loop2_skipped and sum(r) != min(avail, spref, rp):
+                return ("app.is_done: the total %d is not min(available %d, sum of preferred %d, reachable %d)" % (sum(r), avail, spref, rp), "done-total")
             if all(d[3] > 0 for d in dims):
                 # no weight-0 child: the literal reading
                 if spref <= avail and any(s < d[2] for s, d in zip(r, dims)):
                     return ("preferred sizes fit (sum %d <= %d) but a child is below its preferred size: %r" % (spref, avail, r), "preferred-first")
-                if not done and sum(r) != min(avail, smax):
+                if not loop2_skipped and sum(r) != min(avail, smax):
                     return ("space not used as far as the children can grow: total %d, available %d, sum of max %d" % (sum(r), avail, smax), "maximal")
     # regions
     regs = info.get("regions", [])
